@@ -18,10 +18,15 @@ package keeper
 //@ ensures C06/no-principal-no-interest: borrowed == 0 ==> result == 0
 //@ modifies nothing
 
+// The principal a borrower owes (interest is kept in separate fields of the debt row).
+//@ define principalOf(ctx, a) := ite(has(ctx, "stablestake:types.GetDebtKey", a), row(ctx, "stablestake:types.GetDebtKey", "types.Debt", a).Borrowed, 0)
+
 //@ func (Keeper).UpdateInterestAndGetDebt
+//@ forall a Addr
 //@ modifies module:stablestake
 //@ inline-within-module
 //@ ensures C06/vault-eq: vaultGap(ctx) == old(vaultGap(ctx))
+//@ ensures C10/settling-interest-moves-no-principal: principalOf(ctx, a) == old(principalOf(ctx, a))
 
 //@ func (Keeper).GetDebt
 //@ modifies nothing
